@@ -189,8 +189,6 @@ impl BufferQueue {
         let mut buffers_exhausted = 0;
         let mut consumed_from_last = 0;
 
-        self.buffers.borrow().front()?;
-
         for pattern_byte in pat.bytes() {
             if buffers_exhausted >= self.buffers.borrow().len() {
                 return None;
